@@ -478,8 +478,10 @@ def write_evidence(ctx, level, rule, assumptions, extra=None):
         "wall_s": round(time.time() - ctx.t0, 2),
         "violations": ctx.violations,
     }
-    os.makedirs(os.path.join(ROOT, "evidence"), exist_ok=True)
-    p = os.path.join(ROOT, "evidence", "%s.json" % ctx.pid)
+    # a run against a mutated copy (bin/with-mutant) must never overwrite the evidence of /repo
+    evdir = os.environ.get("VERIF_EVIDENCE_DIR") or os.path.join(ROOT, "evidence")
+    os.makedirs(evdir, exist_ok=True)
+    p = os.path.join(evdir, "%s.json" % ctx.pid)
     tmp = p + ".tmp"
     with open(tmp, "w") as f:
         json.dump(ev, f, indent=1, default=str)
